@@ -545,13 +545,19 @@ def all_preemption_points(tier):
                     yield {"model": model, "shape": shape, "seed": 3, "scale": 1.0, "order": 1, "rots": [], "tilt": None, "lmax": 1.0, "upsample": 1,
                            "ops": ops, "quats": [[0.0, 0.0, 0.3]], "gran": "line", "cold": True, "stride": 4, "offset": off}
     # loader level: the loader's own lazy per-molecule tasks (loading + model call), numpy and chunked dask tomograms
-    for model in (["ZNCC"] if tier == "quick" else ["ZNCC", "NCC", "PCC", "FSC"]):
+    # (a loader-level run costs ~75 ms: call-level points for every model, line-level points for ZNCC and PCC in the thorough tier;
+    #  8 residue classes keep the work units small enough to balance over the worker processes)
+    combos = [(m, "call") for m in (["ZNCC"] if tier == "quick" else ["ZNCC", "NCC", "PCC", "FSC"])]
+    if tier != "quick":
+        combos += [("ZNCC", "line"), ("PCC", "line")]
+    for model, gran in combos:
         for op in ("ld-load", "ld-align") + (() if tier == "quick" else ("ld-landscape",)):
             for chunked in (False, True):
-                for off in range(4):
+                nres = 4 if gran == "call" else 8
+                for off in range(nres):
                     yield {"model": model, "shape": [6, 6, 6], "seed": 3, "scale": 1.37, "order": 1, "rots": [], "tilt": [-60.0, 60.0], "lmax": 1.0,
-                           "upsample": 1, "ops": [op], "quats": [[0.0, 0.0, 0.3], [0.2, 0.0, 0.0]], "gran": "call" if tier == "quick" else "line",
-                           "cold": True, "stride": 4, "offset": off, "chunked": chunked}
+                           "upsample": 1, "ops": [op], "quats": [[0.0, 0.0, 0.3], [0.2, 0.0, 0.0]], "gran": gran,
+                           "cold": True, "stride": nres, "offset": off, "chunked": chunked}
 
 
 @st.composite
